@@ -14,6 +14,10 @@ DEFAULT_STYLE: Dict[str, Any] = {
     "hash_comments": False,  # sprinkle '#' comments
     "nest_indent": True,  # indent the bodies of menu / if / choice
     "squote": False,  # single-quoted prompts
+    "trailing": 0,  # every n-th non-help line gets a trailing '# comment'
+    "cont": False,  # split '&&' / '||' of long conditions over two lines with a backslash continuation
+    "prop_order": 0,  # permutation key for the order of the property groups of a config
+    "tabs": False,  # indent with one tab per level instead of spaces
 }
 
 
@@ -101,9 +105,19 @@ class _R:
         self.root = root_dir
         self.st = st
         self.files: Dict[str, List[str]] = {}
-        self.ind = " " * st["indent"]
+        self.ind = "\t" if st.get("tabs") else " " * st["indent"]
+        self.nlines = 0
 
-    def line(self, out: List[str], level: int, text: str) -> None:
+    def line(self, out: List[str], level: int, text: str, help_text: bool = False, plain: bool = False) -> None:
+        st = self.st
+        if text and not help_text and not plain:
+            self.nlines += 1
+            if st.get("cont") and '"' not in text and "'" not in text and (" && " in text or " || " in text) and text.split(" ")[0] in ("depends", "if", "visible", "default", "range", "select", "imply"):
+                op = " && " if " && " in text else " || "
+                i = text.index(op) + len(op) - 1
+                text = text[:i] + " \\\n" + self.ind * (level + 2) + text[i + 1 :]
+            if st.get("trailing") and self.nlines % st["trailing"] == 0 and not text.endswith("\\") and "\n" not in text:
+                text += "  # trailing comment"
         out.append(self.ind * level + text if text else "")
 
     def config(self, out, e, level) -> None:
@@ -124,28 +138,42 @@ class _R:
 
     def props(self, out, e, L) -> None:
         st = self.st
-        for dep in e.get("depends", []):
-            self.line(out, L, "depends on " + expr_str(dep, st["paren_all"]))
-        for r in e.get("ranges", []):
-            self.line(out, L, f"range {operand_str(r['lo'])} {operand_str(r['hi'])}{_cond(r['cond'], st)}")
-        for dflt in e.get("defaults", []):
-            v = dflt["val"]
-            vs = v if isinstance(v, str) else valexpr_str(v, st)
-            self.line(out, L, f"default {vs}{_cond(dflt['cond'], st)}")
-        for s in e.get("selects", []):
-            self.line(out, L, f"select {s['t']}{_cond(s['cond'], st)}")
-        for s in e.get("implies", []):
-            self.line(out, L, f"imply {s['t']}{_cond(s['cond'], st)}")
-        for s in e.get("sets", []):
-            self.line(out, L, f"set {s['t']}={operand_str(s['v'])}{_cond(s['cond'], st)}")
-        for s in e.get("wsets", []):
-            self.line(out, L, f"set default {s['t']}={operand_str(s['v'])}{_cond(s['cond'], st)}")
+        groups = []
+
+        def grp(fn):
+            buf: List[str] = []
+            fn(buf)
+            if buf:
+                groups.append(buf)
+
+        grp(lambda b: [self.line(b, L, "depends on " + expr_str(dep, st["paren_all"])) for dep in e.get("depends", [])])
+        grp(lambda b: [self.line(b, L, f"range {operand_str(r['lo'])} {operand_str(r['hi'])}{_cond(r['cond'], st)}") for r in e.get("ranges", [])])
+        grp(
+            lambda b: [
+                self.line(b, L, f"default {d['val'] if isinstance(d['val'], str) else valexpr_str(d['val'], st)}{_cond(d['cond'], st)}")
+                for d in e.get("defaults", [])
+            ]
+        )
+        grp(lambda b: [self.line(b, L, f"select {x['t']}{_cond(x['cond'], st)}") for x in e.get("selects", [])])
+        grp(lambda b: [self.line(b, L, f"imply {x['t']}{_cond(x['cond'], st)}") for x in e.get("implies", [])])
+        grp(lambda b: [self.line(b, L, f"set {x['t']}={operand_str(x['v'])}{_cond(x['cond'], st)}") for x in e.get("sets", [])])
+        grp(lambda b: [self.line(b, L, f"set default {x['t']}={operand_str(x['v'])}{_cond(x['cond'], st)}") for x in e.get("wsets", [])])
         if e.get("warning"):
-            self.line(out, L, f"warning {q(e['warning'])}")
+            grp(lambda b: self.line(b, L, f"warning {q(e['warning'])}"))
+        key = st.get("prop_order") or 0
+        if key:
+            # the relative order inside a group is semantic (first matching default wins); groups may be permuted
+            rest = list(groups)
+            groups = []
+            while rest:
+                groups.append(rest.pop(key % len(rest)))
+                key = key // 3 + 1
+        for g in groups:
+            out.extend(g)
         if e.get("help"):
             self.line(out, L, "help")
             for hl in e["help"].split("\n"):
-                self.line(out, L + 1, hl)
+                self.line(out, L + 1, hl, help_text=True)
 
     def entries(self, out, body, level) -> None:
         st = self.st
@@ -195,7 +223,9 @@ class _R:
                 v = e["val"]
                 if e.get("type") == "string":
                     v = q(v)
-                self.line(out, level, f"{e['name']} {e.get('op', ':=')} {v}")
+                # parser 1 takes a trailing '# comment' into the macro's value (recorded C04 finding): none is put here
+                # unless a case asks for it explicitly
+                self.line(out, level, f"{e['name']} {e.get('op', ':=')} {v}", plain=not st.get("trailing_on_macro"))
             elif k == "source":
                 mode = e["mode"]
                 fname = e["file"]
